@@ -1052,13 +1052,19 @@ class TorConfig:
                 if v == DEFAULT_VALUE or v == 'auto':
                     try:
                         initial = defaults[name[:-5]]
+                        if not isinstance(initial, list):
+                            # a single default line
+                            initial = [initial]
                     except KeyError:
                         default_key = '__{}'.format(name[:-5])
                         default = yield self.protocol.get_conf_single(default_key)
-                        if not default:
+                        if not default or default == DEFAULT_VALUE:
                             initial = []
                         else:
                             initial = [default]
+                elif isinstance(v, list):
+                    # several lines configured
+                    initial = [self.parsers[rn].parse(x) for x in v]
                 else:
                     initial = [self.parsers[rn].parse(v)]
                 self.config[rn] = _ListWrapper(
@@ -1090,7 +1096,10 @@ class TorConfig:
                 self.list_parsers.add(rn)
                 parsed = self.parsers[rn].parse(v)
                 if parsed == [DEFAULT_VALUE]:
-                    parsed = defaults.get(rn, [])
+                    parsed = []
+                    if rn in defaults:
+                        # one default line comes as a string
+                        parsed = self.parsers[rn].parse(defaults[rn])
                 self.config[rn] = _ListWrapper(
                     parsed, functools.partial(self.mark_unsaved, rn))
 
